@@ -427,6 +427,27 @@ fn buf_rect_from_range_forms() {
     assert!(r == Rect { left: lo(k0, a), top: lo(k2, c), right: hi(k1, b), bottom: hi(k3, d) });
 }
 
+// @ob props=C11 tier=quick kind=B cfg=core-std timeout=900
+// @fn Buf2::new_from
+// @bound dims <= 3x3, iterators of 0..9 items
+// @allow_panic Buf2::<.*>::new_from|assert_failed
+// @clause the owned-buffer constructor rejects an iterator that yields fewer than w*h items (it never builds a buffer whose data cannot hold its dimensions), and takes exactly the first w*h items of a longer one
+#[cfg(not(verif_skip_buf_new_from_rejects_short_iter))]
+#[kani::proof]
+#[kani::unwind(14)]
+fn buf_new_from_rejects_short_iter() {
+    let (w, h): (u32, u32) = (kani::any(), kani::any());
+    kani::assume(w >= 1 && w <= 3 && h >= 1 && h <= 3);
+    let n: usize = kani::any();
+    kani::assume(n <= 9);
+    let items: [u8; 9] = kani::any();
+    kani::cover!(n < (w * h) as usize);
+    kani::cover!(n > (w * h) as usize);
+    let b = Buf2::new_from((w, h), items.into_iter().take(n));
+    assert!(n >= (w * h) as usize);
+    assert!(b.data().len() == (w * h) as usize && b.data()[0] == items[0] && b.data()[(w * h) as usize - 1] == items[(w * h) as usize - 1]);
+}
+
 // ---- small-domain twins of the Verus contracts: they find a concrete failing input when a Verus obligation fails ----
 
 fn any_inner<'a>(data: &'a [u8; N]) -> Inner<u8, &'a [u8]> {
